@@ -487,17 +487,12 @@ func (t *tracer) TransitionEnd(tx *am.Transition) {
 			Active:    isActive,
 		}
 
-		// activated & deactivated
-		if isActive &&
-			(m.lastRec == nil ||
-				m.lastRec.cacheMTimeTracked[hIdx] != mTimeTracked[hIdx]) {
-
+		// activated & deactivated (during this transition)
+		changed := mTimeTrackedBefore[hIdx] != mTimeTracked[hIdx]
+		if isActive && changed {
 			tickRec.Activated = true
 		}
-		if !isActive &&
-			m.lastRec != nil &&
-			(m.lastRec.cacheMTimeTracked[hIdx] != mTimeTracked[hIdx]) {
-
+		if !isActive && changed {
 			tickRec.Deactivated = true
 		}
 
@@ -697,11 +692,11 @@ func (m *Memory) FindLatest(
 		}
 		// MTimeStates
 		for i, state := range s.MTimeStates {
-			db = db.Where(state+".m_time >= ?", s.MTime[i])
+			db = db.Where(state+".tick >= ?", s.MTime[i])
 			joins = append(joins, state)
 		}
 		for i, state := range e.MTimeStates {
-			db = db.Where(state+".m_time <= ?", e.MTime[i])
+			db = db.Where(state+".tick <= ?", e.MTime[i])
 			joins = append(joins, state)
 		}
 
@@ -742,21 +737,21 @@ func (m *Memory) FindLatest(
 		// MTimeDiff
 		if s.MTimeDiff != 0 && e.MTimeDiff != 0 {
 			db = db.Where(
-				"times.m_time_diff >= ? AND times.m_time_diff <= ?",
+				"times.m_time_diff_sum >= ? AND times.m_time_diff_sum <= ?",
 				s.MTimeDiff, e.MTimeDiff,
 			)
 		}
 		// MTimeTrackedDiff
 		if s.MTimeTrackedDiff != 0 && e.MTimeTrackedDiff != 0 {
 			db = db.Where(
-				"times.m_time_tracked_diff >= ? AND times.m_time_tracked_diff <= ?",
+				"times.m_time_tracked_diff_sum >= ? AND times.m_time_tracked_diff_sum <= ?",
 				s.MTimeTrackedDiff, e.MTimeTrackedDiff,
 			)
 		}
 		// MTimeRecordDiff
 		if s.MTimeRecordDiff != 0 && e.MTimeRecordDiff != 0 {
 			db = db.Where(
-				"times.m_time_record_diff >= ? AND times.m_time_record_diff <= ?",
+				"times.m_time_record_diff_sum >= ? AND times.m_time_record_diff_sum <= ?",
 				s.MTimeRecordDiff, e.MTimeRecordDiff,
 			)
 		}
@@ -840,8 +835,8 @@ func (m *Memory) JoinState(query *gorm.DB, name string) *gorm.DB {
 }
 
 func (m *Memory) JoinTransition(query *gorm.DB) *gorm.DB {
-	// TODO test
-	return query.Preload("transitions")
+	// transition fields are columns of the times table, nothing to join
+	return query
 }
 
 // func (m *Memory) SelectTime(query *gorm.DB, name string) *gorm.DB {
